@@ -443,8 +443,42 @@ def dask_slices_of_one_parent(chk, r):
     chk.count("dask-slices-of-one-parent")
 
 
+def long_arrays_aligned_windows(chk, r, tier):
+    """arrays long enough for their validity bitmap to span several bytes: contiguous windows whose (accumulated) offset is a multiple
+    of eight, slices of slices, a pickled window - the missing mask and every quantity are those of the same rows of the parent"""
+    import pickle
+    for kind in geo.KINDS:
+        els = []
+        while len(els) < 44:
+            els += [e for e in geo.structured_elements(kind, r, 12, mag=30) if e is None or geo.verts_of(kind, e)]
+        els = els[:44]
+        for i in (3, 9, 17, 18, 30, 41):
+            els[i] = None
+        src = geo.make_array(kind, els, "float64")
+        qs = quantities(kind, src)
+        wins = [((8, 16),), ((16, 44),), ((24, 33),), ((10, 40), (6, 20)), ((8, 40), (8, 24)), ((1, 44), (7, 30)), ((32, 44),)]
+        for w in wins if tier != "quick" else wins[:5]:
+            cur, idx = src, list(range(44))
+            for lo, hi in w:
+                cur, idx = cur[lo:hi], idx[lo:hi]
+            for how, a in (("slice", cur), ("pickled-slice", pickle.loads(pickle.dumps(cur)))):
+                chk.evaluated(len(idx))
+                try:
+                    got = quantities(kind, a)
+                except Exception as e:  # noqa: BLE001
+                    chk.violation(f"quantities/{kind}/aligned-window-raises-{common.err_kind(e)}", dict(api=how, kind=kind, windows=w, error=repr(e)[:200])); break
+                want = select(qs, idx)
+                bad = [k for k in want if want[k] is not None and got[k] != want[k]]
+                if bad or canon_el(geo.to_elements(a)) != canon_el([els[i] for i in idx]):
+                    chk.violation(f"quantities/{kind}/window-of-a-long-array-differs/{(bad or ['elements'])[0]}",
+                                  dict(api=how, kind=kind, windows=w, elements=els, differs=bad, got={k: got[k] for k in bad[:2]},
+                                       expected={k: want[k] for k in bad[:2]})); break
+    chk.count("long-arrays-aligned-windows")
+
+
 def run_cases(chk, tier):
     r = common.rng(PROP)
+    long_arrays_aligned_windows(chk, r, tier)
     narrow_index_dtypes(chk, r)
     dask_slices_of_one_parent(chk, r)
     seqs = 14 if tier == "quick" else 150
